@@ -83,4 +83,5 @@ def run(ctx):
     if fw:
         ctx.note('flush_worker exits on shutdown alone (reasoned exception: kill_logs calls flush_logs(0) itself)')
     shared.queue_discipline(ctx, '4')
+    shared.sync_before_handover(ctx, '6')
     shared.replay_order(ctx, '5')
